@@ -340,6 +340,14 @@ def construction_history(fam, arg):
         p = bench.construct(fam, a)
         pt, _ = bench.declared(p)
         bench.real_eval(p, pt)
+        # ... and the user shifts that instance's own optimum record in place (it is theirs to modify)
+        try:
+            arr = p.knownOptimum[0].point.floatVariables
+            for k in range(len(arr)):
+                arr[k] = arr[k] + 0.04
+            p.knownOptimum[0].functionValues[0].value = 4242.0
+        except (TypeError, ValueError, IndexError):
+            pass
         hist.append(p)
     return hist
 
